@@ -31,6 +31,41 @@ CHECKS = {
         text="Contracts stated from the property are evaluated on every call of the real helpers (tens of thousands per run, including the calls SBC, Classifier and the 2D symmetry path make); centre-of-mass equivariance/invariance and the inertia decomposition are checked against independently assembled references.",
         note="Trusted: numpy linear algebra, icontract. Ill-conditioned centre-of-mass inputs (circular resultant < 1e-6) are counted and skipped.",
         ref="DESIGN.md §6 C20"),
+    "C05": dict(
+        technique="runtime postcondition on SymmetryAnalyzer.get_conventional_system (in situ in every symmetry workload) vs independent spglib search, standardized lattice and a proper-congruence checker over the lattice point group",
+        text="Crystals of all 230 groups (general and special positions from an affine-subspace sampler that does not use MatID's tables) are analysed in several presentations; each returned conventional cell is re-analysed independently and matched against the idealized standardized input by enumerating lattice isometries, which decides 'same crystal up to a proper motion' and so detects mirror images of chiral crystals.",
+        note="Trusted: spglib 2.7, ASE space-group tables (generation only), numpy. Ill-conditioned samples are discarded by a stated rule and counted.",
+        ref="DESIGN.md §5, §6 C05"),
+    "C06": dict(
+        technique="offline relational checker over recorded observations of >=3 presentations per crystal analysed in worker processes with different PYTHONHASHSEED",
+        text="Labels, Wyckoff multisets, flags and (cubic, parameter-free) conventional cells recorded for rotated/translated/permuted/sheared/supercell presentations of one crystal must be identical; members of a crystal run under different hash seeds so that iteration-order dependence is part of the explored environment.",
+        note="Trusted: exactness of the generated re-presentations (integer supercells, orthogonal matrices); spglib for the conditioning filter.",
+        ref="DESIGN.md §6 C06"),
+    "C07": dict(
+        technique="runtime postcondition on get_wyckoff_sets_conventional / letters / equivalent atoms vs orbits generated with independently obtained operations of the returned cell and spglib's own letters",
+        text="For every analysed crystal the sets must partition the conventional atoms, agree with per-atom letters/classes, and every atom's orbit under spglib's operations of the returned cell must equal its set; letters are compared with spglib's assignment whenever spglib keeps the returned setting.",
+        note="Trusted: spglib get_symmetry / letter assignment on the returned cell.",
+        ref="DESIGN.md §6 C07"),
+    "C08": dict(
+        technique="runtime postcondition on get_wyckoff_sets_conventional(return_parameters=True) / get_has_free_wyckoff_parameters; exhaustive sweep of the 1731 (group, letter) cells on every run",
+        text="Each of the 1731 Wyckoff positions is occupied with random parameter values (cell membership decided independently by spglib's letter for the orbit) and the reported parameters are substituted back into the representative, which must land on an atom of the set; also on the random family and on 2D layers (in-plane only).",
+        note="Trusted: spglib letters to decide which cell a generated orbit occupies; an independent expression parser. MatID's expressions are used to generate candidates only.",
+        ref="DESIGN.md §6 C08", category="exploration"),
+    "C12": dict(
+        technique="runtime postcondition on get_primitive_system and the per-atom letter/equivalence getters vs counting identities and independent spglib primitivity/group tests",
+        text="For all seven centring types the primitive system must have conv/m atoms and volume, be irreducible and of the same group (spglib), and the (letter, element) histograms of original/primitive/conventional descriptions must be in the exact ratio of atom counts.",
+        note="Trusted: spglib (group of the primitive cell, standardize_cell as primitivity test).",
+        ref="DESIGN.md §6 C12"),
+    "C14": dict(
+        technique="exhaustive structural walk of the live tables (230 info rows, 1731 Wyckoff positions, all normalizer entries) against spglib's Hall-symbol database, an independent expression parser and spglib letters of probe crystals",
+        text="Every table entry is checked on every run: expressions vs numeric matrices, closure/orbit size under the standard-setting operations, N G N^-1 = G, metric preservation, handedness for Sohncke groups, and tabulated letter permutations reproduced on probe crystals.",
+        note="Trusted: spglib Hall database (first Hall number = standard setting), spglib letters when it keeps the given setting (others counted uncontrolled).",
+        ref="DESIGN.md §6 C14"),
+    "C15": dict(
+        technique="runtime postcondition on get_is_chiral vs the Sohncke set computed from the Hall database; offline relational check across presentations",
+        text="One or more crystals per space group in sheared/supercell/rotated presentations; the flag must equal membership in the 65 Sohncke groups and be identical across presentations.",
+        note="Trusted: spglib Hall database; spglib group detection.",
+        ref="DESIGN.md §6 C15"),
 }
 
 PENDING = {}
